@@ -1,0 +1,66 @@
+//go:build verif
+
+// Contracts for package protocol (comment-only; read by /verif/govc).
+
+package protocol
+
+//@ func maxFragmentSizeInternal(mtu int, transport common.TransportProtocol) (r int)
+//@   property C14
+//@   requires 0 <= mtu && mtu <= 65535
+//@   ensures transport == common.StreamTransport ==> r == 32768
+//@   ensures transport != common.StreamTransport ==> r >= 0 && (r == 0 || r + 88 <= mtu)
+//@   ensures transport != common.StreamTransport ==> r == max(0, mtu - 88)
+//@
+//@ func buildLowEntropyParams(mode appctlpb.LowEntropyMode) (p lowEntropyModeParams, err error)
+//@   property C14 C17
+//@   ensures (err == nil) <==> (1 <= mode && mode <= 4)
+//@   ensures err == nil ==> p.sourceBytesPerChunk == int(mode) + 3 && p.halfMaskOnes == 4 * (int(mode) + 3)
+//@
+//@ func lowEntropyEncodedPayloadLen(extractedPayloadLen int, mode appctlpb.LowEntropyMode) (n uint16, err error)
+//@   property C14 C17
+//@   requires extractedPayloadLen <= 1073741824
+//@   ensures err == nil ==> 1 <= mode && mode <= 4 && extractedPayloadLen > 0
+//@   ensures err == nil ==> int(n) == 8 * ((extractedPayloadLen + int(mode) + 2) / (int(mode) + 3))
+//@   ensures err == nil ==> n <= 65528
+//@   ensures (1 <= mode && mode <= 4 && extractedPayloadLen > 0 && (extractedPayloadLen + int(mode) + 2) / (int(mode) + 3) <= 8191) ==> err == nil
+//@
+//@ func maxFragmentSize(mtu int, transport common.TransportProtocol, mode appctlpb.LowEntropyMode) (r int, err error)
+//@   property C14
+//@   requires 0 <= mtu && mtu <= 65535
+//@   ensures err == nil ==> r >= 0 && r <= 65535
+//@   ensures err == nil && mode == 0 && transport != common.StreamTransport ==> (r == 0 || r + 88 <= mtu)
+//@   ensures err == nil && mode != 0 ==> 1 <= mode && mode <= 4
+//@   ensures err == nil && mode != 0 && transport == common.PacketTransport ==> r >= 1 && 8 * ((r + int(mode) + 2) / (int(mode) + 3)) + 88 <= mtu
+//@   ensures err == nil && transport == common.StreamTransport ==> r <= 32768 && r >= 1
+//@   ensures err == nil && mode != 0 && transport == common.StreamTransport ==> 8 * ((r + int(mode) + 2) / (int(mode) + 3)) <= 65528
+//@
+//@ func maxPaddingSize(mtu int, transport common.TransportProtocol, fragmentSize int, existingPaddingSize int) (r int)
+//@   property C14
+//@   requires 0 <= mtu && mtu <= 65535 && 0 <= fragmentSize && fragmentSize <= 65535
+//@   requires 0 <= existingPaddingSize && existingPaddingSize <= 255
+//@   ensures 0 <= r && r <= 255
+//@   ensures transport != common.StreamTransport ==> (r == 0 || fragmentSize + 88 + existingPaddingSize + r <= mtu)
+//@
+//@ func (ss *sessionStruct) Marshal() (b []byte)
+//@   property C09 C08
+//@   mode int
+//@   requires ss != nil
+//@   modifies ss.timestamp
+//@   ensures len(b) == 32 && fresh(b)
+//@   ensures b[0] == ss.protocol && b[1] == 0
+//@   ensures be32(b, 2) == ss.timestamp && mathint(ss.timestamp) == nowMinute()
+//@   ensures be32(b, 6) == ss.sessionID && be32(b, 10) == ss.seq
+//@   ensures b[14] == ss.statusCode && be16(b, 15) == ss.payloadLen && b[17] == ss.suffixLen
+//@   ensures forall(k, 18, 32, b[k] == 0)
+//@
+//@ func (ss *sessionStruct) Unmarshal(b []byte) (err error)
+//@   property C08 C09 C10
+//@   mode int
+//@   requires ss != nil
+//@   modifies ss.*
+//@   ensures err == nil ==> len(b) == 32 && 2 <= b[0] && b[0] <= 5 && be16(b, 15) <= 1024
+//@   ensures err == nil ==> mathint(be32(b, 2)) - 1 <= nowMinute() && nowMinute() <= mathint(be32(b, 2)) + 1
+//@   ensures len(b) == 32 && 2 <= b[0] && b[0] <= 5 && be16(b, 15) <= 1024 && mathint(be32(b, 2)) - 1 <= nowMinute() && nowMinute() <= mathint(be32(b, 2)) + 1 ==> err == nil
+//@   ensures err == nil ==> ss.protocol == b[0] && ss.timestamp == be32(b, 2) && ss.sessionID == be32(b, 6) && ss.seq == be32(b, 10)
+//@   ensures err == nil ==> ss.statusCode == b[14] && ss.payloadLen == be16(b, 15) && ss.suffixLen == b[17]
+//@   ensures err != nil ==> ss.protocol == old(ss.protocol) && ss.sessionID == old(ss.sessionID) && ss.seq == old(ss.seq) && ss.payloadLen == old(ss.payloadLen)
